@@ -1512,10 +1512,63 @@ func (ev *Evaluator) clampSelect(st *State, fr *Frame, in *ssa.If) bool {
 	return true
 }
 
+// exhaustedEnum: the path has excluded every declared constant of some value's named integer type (the default arm
+// of a switch over an enumeration that lists all its members): unreachable for every value the type declares.
+func exhaustedEnum(st *State) bool {
+	excluded := map[*T]map[string]bool{}
+	for _, a := range st.Facts.Log {
+		c := a.Cond
+		if c == nil || c.Op != "cmp" || len(c.Args) != 2 {
+			continue
+		}
+		if !((c.Aux == "==" && !a.Val) || (c.Aux == "!=" && a.Val)) {
+			continue
+		}
+		x, k := c.Args[0], c.Args[1]
+		if _, isK := x.IsConstInt(); isK {
+			x, k = k, x
+		}
+		kv, isK := k.IsConstInt()
+		if !isK || x.Typ == nil {
+			continue
+		}
+		if excluded[x] == nil {
+			excluded[x] = map[string]bool{}
+		}
+		excluded[x][fmt.Sprint(kv)] = true
+	}
+	for x, ex := range excluded {
+		n, isN := x.Typ.(*types.Named)
+		if !isN || n.Obj().Pkg() == nil {
+			continue
+		}
+		if b, isB := n.Underlying().(*types.Basic); !isB || b.Info()&types.IsInteger == 0 {
+			continue
+		}
+		sc := n.Obj().Pkg().Scope()
+		total, all := 0, true
+		for _, name := range sc.Names() {
+			if k, isC := sc.Lookup(name).(*types.Const); isC && types.Identical(k.Type(), n) {
+				total++
+				if v, exact := constant.Int64Val(constant.ToInt(k.Val())); !exact || !ex[fmt.Sprint(v)] {
+					all = false
+				}
+			}
+		}
+		if total >= 2 && all {
+			return true
+		}
+	}
+	return false
+}
+
 var stdLoopHelpers = map[string]bool{"Contains": true, "ContainsFunc": true, "Index": true, "IndexFunc": true}
 
 // defensivePanic: the panic's immediate guard (the last atoms assumed on the path) is "x == nil" or a failed type test.
 func defensivePanic(st *State) bool {
+	if exhaustedEnum(st) {
+		return true
+	}
 	log := st.Facts.Log
 	if len(log) > 3 {
 		log = log[len(log)-3:]
@@ -1651,6 +1704,8 @@ func (ev *Evaluator) evalValue(st *State, fr *Frame, v ssa.Value) (*T, []*State)
 		idx := ev.val(st, fr, x.Index)
 		if arr, _, ok := wholeArray(base); ok {
 			base = arr // arr[:][i] is arr[i]
+		} else if b, _, ok := prefixSlice(base); ok {
+			base = b // s[:n][i] is s[i]
 		}
 		var et types.Type
 		switch u := x.X.Type().Underlying().(type) {
@@ -1791,6 +1846,25 @@ func concreteZero(ts *Terms, z *T, static types.Type, other *T) *T {
 }
 
 // wholeArray: t is arr[:] (or arr[0:]) of an array addressed by pointer; returns the array pointer term and length.
+// prefixSlice: t is s[:hi] (or s[0:hi]) of a slice s: its elements are s's, its length is hi.
+func prefixSlice(t *T) (*T, *T, bool) {
+	if t.Op != "app" || t.Aux != "slice" || len(t.Args) != 4 || t.Args[0].Typ == nil {
+		return nil, nil, false
+	}
+	if _, isSlice := t.Args[0].Typ.Underlying().(*types.Slice); !isSlice {
+		return nil, nil, false
+	}
+	if lo := t.Args[1]; lo.Op != "none" {
+		if k, isK := lo.IsConstInt(); !isK || k != 0 {
+			return nil, nil, false
+		}
+	}
+	if t.Args[2].Op == "none" || t.Args[3].Op != "none" {
+		return nil, nil, false
+	}
+	return t.Args[0], t.Args[2], true
+}
+
 func wholeArray(t *T) (*T, int64, bool) {
 	if t.Op != "app" || t.Aux != "slice" || len(t.Args) != 4 || t.Args[0].Typ == nil {
 		return nil, 0, false
@@ -1928,6 +2002,8 @@ func (ev *Evaluator) doCall(st *State, fr *Frame, c *ssa.CallCommon, instr ssa.I
 				res = ts.LinConst(int64(len(s)), types.Typ[types.Int])
 			} else if _, n, isArr := wholeArray(a); isArr {
 				res = ts.LinConst(n, types.Typ[types.Int])
+			} else if _, hi, isPre := prefixSlice(a); isPre && name == "len" {
+				res = hi
 			} else if a.Op == "makeslice" && name == "len" {
 				res = a.Args[0]
 			} else if a.IsNilConst() {
@@ -1963,6 +2039,14 @@ func (ev *Evaluator) doCall(st *State, fr *Frame, c *ssa.CallCommon, instr ssa.I
 			fr.env[dst] = res
 		} else if dst != nil {
 			fr.env[dst] = ts.intern(&T{Op: "unit"})
+		}
+		return false
+	}
+
+	// slices.Grow / slices.Clip only change the capacity: the slice's elements and length are the argument's
+	if e.Fn != nil && e.FnTerm == nil && e.Fn.Pkg != nil && e.Fn.Pkg.Pkg.Path() == "slices" && (e.Fn.Name() == "Grow" || e.Fn.Name() == "Clip") && len(e.Args) >= 1 {
+		if dst != nil {
+			fr.env[dst] = e.Args[0]
 		}
 		return false
 	}
@@ -2040,6 +2124,14 @@ func (ev *Evaluator) doCall(st *State, fr *Frame, c *ssa.CallCommon, instr ssa.I
 					par = par.Parent()
 				}
 				if _, known := refParamNames(ev.P.CanonFuncName(par)); !known && ev.P.InScope[par] {
+					inline = true
+				}
+				// … and so is a known closure called by a helper the reviewed tree does not have (the helper was handed it)
+				cur := fr.fn
+				for cur.Parent() != nil {
+					cur = cur.Parent()
+				}
+				if _, known := refParamNames(ev.P.CanonFuncName(cur)); !known && ev.P.InScope[cur] {
 					inline = true
 				}
 			}
